@@ -20,6 +20,11 @@ ASSUMPTIONS = [
     "counter is 3 bits wide; its comment expects at most 4)",
     "the first two output words after reset (the ready handshake of the registered inserter settling) are not judged",
     "the link layer itself never sends a SKP word",
+    "enable_scrambling is an LTSSM output (link/layer.py) and may change between any two words, also inside an idle "
+    "run and with no COM nearby (it rises when the FSM enters Polling.Idle / Hot Reset.Exit / Recovery.Idle, a cycle or "
+    "two after the last training set gave way to logical idle); it selects only whether a word is XORed: the "
+    "keystream itself is the USB3 one (USB 3.2 6.4.3 / appendix B): it restarts at a COM and advances over every "
+    "symbol except SKP whether or not scrambling is applied -- a receiver descrambles on exactly that assumption",
     "link-idle sub: the arbiter's inputs are internal to USB3LinkLayer.elaborate(); what is checked is the visible "
     "consequence (can_send_skp only over valid logical-idle words), under LTSSM/TS/compliance traffic, not under U0 "
     "packet traffic",
@@ -108,8 +113,15 @@ def _burst_word(bits, j):
 
 
 def expand(case):
-    """-> list of (data, ctrl, can_send_skp) offered words, honouring the backlog assumption by construction."""
+    """-> list of (data, ctrl, can_send_skp, enable_scrambling) offered words, honouring the backlog assumption by
+    construction.  Segment kind 3 sets enable_scrambling := n & 1 from the next word on."""
+    return [w + (e,) for w, e in zip(*_expand(case))]
+
+
+def _expand(case):
     words = [(0, 0, 0), (0, 0, 0)]                 # reset settling: one idle word, offered twice (accepted once)
+    ens = [case["enable"]] * 2
+    en = case["enable"]
     n_acc = 1
     sent = 0
 
@@ -117,7 +129,10 @@ def expand(case):
         return (4 * n_acc) // 354 - 2 * sent
 
     for kind, n, bits in case["segs"]:
-        if kind == 0:
+        ens += [en] * (len(words) - len(ens))
+        if kind == 3:
+            en = n & 1
+        elif kind == 0:
             for _ in range(IDLE_RUNS[n % len(IDLE_RUNS)]):
                 words.append((0, 0, 1))
                 if owed() >= 2:
@@ -135,9 +150,11 @@ def expand(case):
                 words.append((d, c, 0))
                 n_acc += 1
     words += [(0, 0, 1)] * 8
-    return words
+    ens += [en] * (len(words) - len(ens))
+    return words, ens
 
 
+_SW = st.tuples(st.just(3), st.integers(0, 1), st.just(0))          # enable_scrambling := n
 _SEG = st.tuples(weighted([(0, 5), (1, 5), (2, 1)]), st.integers(0, 12), st.integers(0, (1 << 48) - 1))
 
 
@@ -149,7 +166,9 @@ class InserterSub(Sub):
             "Scrambler+CTCSkipInserter wired as in physical/layer.py (3/4) or the real USB3PhysicalLayer with a stub "
             "PIPE PHY (1/4); oracle per output word: a SKP word only replaces filler; every other word equals the "
             "offered word scrambled with the bit-serial reference keystream that steps once per non-replaced word and "
-            "restarts after COM-first words; a filler word is replaced iff >= 2 SKP ordered sets are owed at one per "
+            "restarts after COM-first words, whether or not scrambling is applied (enable_scrambling constant per case, "
+            "switched at generated words, or the end-of-training shape: off, burst >= 177 words, first idle words, on); "
+            "a filler word is replaced iff >= 2 SKP ordered sets are owed at one per "
             "354 transmitted symbols (+-1 word slack); non-trivial = >= 2 SKP words inserted, a burst >= 88 words, an "
             "all-zero look-alike kept, a COM restart, scrambling on")
     shrink_budget = 300
@@ -174,16 +193,34 @@ class InserterSub(Sub):
         return self.h[name]
 
     def strategy(self):
-        return st.fixed_dictionaries(dict(
+        plain = st.fixed_dictionaries(dict(
             dut=weighted([("txpath", 3), ("layer", 1)]),
             enable=weighted([(1, 3), (0, 1)]),
             segs=long_lists(_SEG, min_size=1, max_size=24, average=9),
         ))
+        # scrambling changes during the stream (kind-3 segments anywhere)
+        switching = st.fixed_dictionaries(dict(
+            dut=weighted([("txpath", 1), ("layer", 1)]),
+            enable=st.integers(0, 1),
+            segs=long_lists(st.one_of(_SEG, _SEG, _SEG, _SW), min_size=1, max_size=24, average=9),
+        ))
+        # the end of link training as the LTSSM produces it: scrambling off, a burst long enough to owe >= 2 SKP
+        # ordered sets (>= 177 words without a slot), the first idle words (SKP inserted, scrambling still off),
+        # scrambling on with no COM in between, further traffic
+        long_burst = st.tuples(st.sampled_from([1, 2]), st.sampled_from([7, 8, 9]), st.integers(0, (1 << 48) - 1))
+        first_idle = st.tuples(st.just(0), st.sampled_from([0, 2, 3, 4, 5]), st.just(0))
+        late = st.builds(
+            lambda dut, pre, b, i, mid, post: dict(dut=dut, enable=0,
+                                                   segs=pre + [b, i] + mid + [(3, 1, 0)] + post),
+            weighted([("txpath", 1), ("layer", 1)]), st.lists(_SEG, max_size=3), long_burst, first_idle,
+            st.lists(st.tuples(st.just(0), st.integers(0, 4), st.just(0)), max_size=1),
+            st.lists(st.one_of(_SEG, _SEG, _SW), min_size=1, max_size=6))
+        return st.one_of(plain, plain, plain, switching, late).map(
+            lambda c: dict(c, segs=[list(x) for x in c["segs"]]))
 
     def run(self, case):
         words = expand(case)
-        en = case["enable"]
-        script = [dict(data=d, ctrl=c, cs=cs, en=en) for d, c, cs in words]
+        script = [dict(data=d, ctrl=c, cs=cs, en=e) for d, c, cs, e in words]
         trace = self.harness(case["dut"]).run_script(script, tail=1)
         if [o.ready for o in trace[:3]] != [0, 1, 1] or any(not o.ready for o in trace[1:]):
             return fail(f"sink.ready pattern {[o.ready for o in trace[:6]]}.. (expected 0 then constant 1)",
@@ -194,8 +231,12 @@ class InserterSub(Sub):
         lookalike_kept = com_restart = False
         longest_burst = cur_burst = 0
         max_owed = 0
+        skp_while_off = False          # a SKP word was inserted with scrambling off since the last keystream restart
+        late_enable = switched = any_en = False
         for t in range(1, len(words)):
-            d, c, cs = words[t]
+            d, c, cs, en = words[t]
+            any_en = any_en or bool(en)
+            switched = switched or en != words[t - 1][3]
             o = trace[t + 1]
             owed_lo = (4 * max(n_acc - 1, 0)) // 354 - 2 * sent
             owed_hi = (4 * (n_acc + 1)) // 354 - 2 * sent
@@ -209,7 +250,11 @@ class InserterSub(Sub):
                     return fail(f"{case['dut']}: SKP word sent in cycle {t + 1} with only {owed_hi} ordered sets owed "
                                 f"({4 * n_acc} symbols accepted, {sent} SKP words sent)", signature="skp-not-owed")
                 sent += 1
+                if not en:
+                    skp_while_off = True
             else:
+                if en and skp_while_off:
+                    late_enable = True
                 key = u3.lfsr_word(state)[0] if en else 0
                 exp = u3.scramble_word(d, c, key)
                 if (o.txd, o.txk) != (exp, c):
@@ -229,6 +274,7 @@ class InserterSub(Sub):
                 if (d & 0xFF) == u3.COM and (c & 1):
                     state = u3.LFSR_INIT
                     com_restart = True
+                    skp_while_off = False
                 else:
                     state = u3.lfsr_word(state)[1]
                 if not cs and (d, c) == (0, 0):
@@ -239,7 +285,9 @@ class InserterSub(Sub):
                 cur_burst += 1
                 longest_burst = max(longest_burst, cur_burst)
             n_acc += 1
-        labels = {f"dut={case['dut']}", "scrambling-on" if en else "scrambling-off", f"skp-words={min(sent, 5)}",
+        en = any_en
+        labels = {f"dut={case['dut']}", "scrambling-switched" if switched else "scrambling-on" if en else
+                  "scrambling-off", f"skp-words={min(sent, 5)}",
                   f"max-owed={min(max_owed, 7)}"}
         if longest_burst >= 88:
             labels.add("burst>=88")
@@ -249,6 +297,8 @@ class InserterSub(Sub):
             labels.add("zero-lookalike")
         if com_restart:
             labels.add("com-restart")
+        if late_enable:
+            labels.add("scrambled-word-after-skp-inserted-while-off-no-com-between")
         labels.add("len>=1000" if len(words) >= 1000 else "len<1000")
         nt = sent >= 2 and longest_burst >= 88 and lookalike_kept and com_restart and bool(en)
         return Result(ok=True, nontrivial=nt, labels=tuple(sorted(labels)))
